@@ -930,7 +930,7 @@ V_HARNESS(h_cc_route)
 {
   uint8_t b2; int xds0, col0, nul0, mode0; unsigned c1 = RB1 & 0x7F; int p1 = r_parity_ok(RB1);
   cc_channel *ch = &VBI.cc.channel[2];
-  uint8_t buf[2];
+  uint8_t buf[2], last0[2];
   V_INIT();
   cc_prologue();
   buf[0] = ODD(0x14); buf[1] = ODD(0x25); vbi_decode_caption(&VBI, 284, buf);          /* RU2 on CC3 */
@@ -938,8 +938,13 @@ V_HARNESS(h_cc_route)
   xds0 = in_bool(); VBI.cc.xds = xds0; b2 = in_u8();
   if (RB2 >= 0) b2 = (uint8_t) RB2;
   col0 = ch->col; nul0 = ch->nul_ct; mode0 = ch->mode;
+  /* the control code repetition memory belongs to FIELD 1 (EIA-608: control codes are sent twice on the same field; cc.h: "field 1, cc command
+     repetition"): whatever a field-1 code left there, a pair received on field 2 must not touch it - otherwise field-2 traffic between the two
+     transmissions of a field-1 code makes the code execute twice */
+  last0[0] = in_u8(); last0[1] = in_u8(); VBI.cc.last[0] = last0[0]; VBI.cc.last[1] = last0[1];
   buf[0] = RB1; buf[1] = b2; vbi_decode_caption(&VBI, 284, buf);
   V_ASSERT(!c08_mutex_held(&VBI.cc.mutex), "route_mutex_released");
+  V_ASSERT(VBI.cc.last[0] == last0[0] && VBI.cc.last[1] == last0[1], "route_field2_pair_leaves_field1_repeat_memory");
   if (p1 && c1 == 0) {
     V_ASSERT(VBI.cc.xds == xds0 && ch->col == col0 && ch->nul_ct == nul0 && ch->mode == mode0, "route_nul_first_byte_no_effect");
   } else if (p1 && c1 <= 0x0E) {
